@@ -366,73 +366,66 @@ def _connect_functions(ctx: Ctx) -> List[FuncUnit]:
                 has_sub = True
             if isinstance(n, ast.Attribute) and isinstance(n.ctx, ast.Store) and n.attr in ('source', 'dest'):
                 sets_ends += 1
-        if has_sub and sets_ends >= 2:
+        if sets_ends >= 2 and (has_sub or any(isinstance(n, ast.Return) and n.value is not None for n in env.own_nodes())) \
+                and not unit.name.startswith('__') and unit.cls is None:
             out.append(unit)
     return out
 
 
 def rule_subgraph_node_set(ctx: Ctx, out: Collector) -> None:
-    """RC-7: the sub-dag between source and dest consists of exactly the nodes on dependency paths from source
-    to dest (descendants of the source that are ancestors of the destination, plus the end points)."""
+    """RC-7: the sub-dag between source and dest consists of exactly the nodes on dependency paths from source to dest (and of
+    the edges between them), and records its end points.  Decided by interpreting the function over four small graphs with a side
+    input, a dead-end branch, a diamond and a by-pass edge - whatever reachability idiom (all_simple_paths, descendants &
+    ancestors, a helper) it is written with."""
+    from ..absint import AObj, ARaise, Interp, Oracle, enumerate_outcomes
     units = _connect_functions(ctx)
     if not units:
         raise AnalysisError('connected-subgraph function not found (RC-7 / SW-1 anchor vanished)')
+    worlds = {
+        # name: (edges, source, dest, expected node set)
+        'side input and dead end': ([('I', 'A'), ('A', 'B'), ('B', 'D'), ('I', 'S'), ('S', 'B'), ('A', 'X'), ('D', 'F')], 'A', 'D', {'A', 'B', 'D'}),
+        'diamond': ([('I', 'A'), ('A', 'B'), ('A', 'C'), ('B', 'D'), ('C', 'D'), ('E', 'C'), ('D', 'F')], 'A', 'D', {'A', 'B', 'C', 'D'}),
+        'by-pass edge': ([('A', 'B'), ('B', 'D'), ('A', 'D'), ('I', 'A'), ('B', 'Y')], 'A', 'D', {'A', 'B', 'D'}),
+        'from the input node': ([('I', 'A'), ('I', 'B'), ('A', 'D'), ('B', 'Z'), ('Z', 'W')], 'I', 'D', {'I', 'A', 'D'}),
+    }
     for unit in units:
-        env = FuncEnv.of(ctx.p, unit)
         params = unit.params()
-        g_, src_, dst_ = params[0], params[1], params[2]
-        sub = None
-        for n in env.own_nodes():
-            if isinstance(n, ast.Call) and isinstance(n.func, ast.Attribute) and n.func.attr == 'subgraph' and n.args:
-                sub = n
+        src_, dst_ = params[1], params[2]
         cons = f'{unit.module.name}::{unit.qualname}::node set = nodes on paths {src_} -> {dst_}'
-        if sub is None:
-            raise AnalysisError(f'{unit.fid}: subgraph(...) call not found')
-        from ..cfg import Inst
-        pairs = _follow_values(ctx, sub.args[0], Inst(unit, None, None, {}))
-        exprs = [e for e, i in pairs]
-        txt = ' '.join(unparse(e) for e in exprs)
-        calls = {}
-        for e, i in pairs:
-            for c in ast.walk(e):
-                if isinstance(c, ast.Call):
-                    d = (dotted(c.func) or '').split('.')[-1]
-                    calls.setdefault(d, []).append((c, i))
-
-        def is_param(a, i, name):
-            return sym.term(ctx.p, a, i) == ('param', name)
-        verdict = None
-        if 'all_simple_paths' in calls:
-            c, i = calls['all_simple_paths'][0]
-            args = [unparse(a) for a in c.args]
-            if len(c.args) >= 3 and is_param(c.args[0], i, g_) and is_param(c.args[1], i, src_) and is_param(c.args[2], i, dst_):
-                verdict = ('ok', f'all nodes of nx.all_simple_paths({g_}, {src_}, {dst_})')
-            else:
-                verdict = ('bad', f'all_simple_paths({", ".join(args)}) is not taken from {src_} to {dst_}')
-        elif 'ancestors' in calls or 'descendants' in calls:
-            anc_dst = any(len(c.args) >= 2 and is_param(c.args[1], i, dst_) for c, i in calls.get('ancestors', []))
-            desc_src = any(len(c.args) >= 2 and is_param(c.args[1], i, src_) for c, i in calls.get('descendants', []))
-            inter = any(isinstance(x, ast.BinOp) and isinstance(x.op, ast.BitAnd) for e in exprs for x in ast.walk(e)) or '.intersection(' in txt
-            if anc_dst and desc_src and inter:
-                verdict = ('ok', f'descendants({src_}) & ancestors({dst_})')
-            else:
-                missing = []
-                if not desc_src:
-                    missing.append(f'not restricted to descendants of {src_}')
-                if not anc_dst:
-                    missing.append(f'not restricted to ancestors of {dst_}')
-                if anc_dst and desc_src and not inter:
-                    missing.append('the two sets are not intersected')
-                verdict = ('bad', '; '.join(missing))
-        if verdict is None:
-            raise AnalysisError(f'{unit.fid}: the node set {txt[:80]} is not a recognised reachability idiom')
-        if verdict[0] == 'ok':
-            out.ok('RC-7', cons, ctx.p.loc(unit, sub), verdict[1])
+        problems = []
+        for label, (edges, src, dst, want) in worlds.items():
+            def run(oracle: Oracle, edges=edges, src=src, dst=dst):
+                nodes = {}
+                for u, v in edges:
+                    nodes.setdefault(u, {})
+                    nodes.setdefault(v, {})
+                graph = AObj(('ext', 'networkx.DiGraph'), {'nodes': nodes, 'edges': {e: {} for e in edges}, 'graph': {'name': 'main'}}, tag='graph')
+                res = Interp(ctx.p, oracle).call_unit(unit, [graph, src, dst], {})
+                return res
+            for o in enumerate_outcomes(run):
+                if o[0] != 'value':
+                    problems.append(f'{label}: raises {str(o[1])[:50]}')
+                    continue
+                res = o[1]
+                if not (isinstance(res, AObj) and isinstance(res.attrs.get('nodes'), dict)):
+                    raise AnalysisError(f'{unit.fid}: the result is not an abstract graph ({res!r}) (RC-7 anchor vanished)')
+                got = set(res.attrs['nodes'])
+                if got != want:
+                    extra, missing = sorted(got - want), sorted(want - got)
+                    problems.append(f'{label} ({src} -> {dst}): ' + (f'pulls in {extra}' if extra else '') + (' and ' if extra and missing else '')
+                                    + (f'leaves out {missing}' if missing else ''))
+                want_edges = {e for e in edges if e[0] in want and e[1] in want}
+                if got == want and set(res.attrs['edges']) != want_edges:
+                    problems.append(f'{label}: the edges between the nodes are {sorted(res.attrs["edges"])}, expected {sorted(want_edges)}')
+                if res.attrs.get('source') != src or res.attrs.get('dest') != dst:
+                    problems.append(f'{label}: the end points recorded on the sub-dag are ({res.attrs.get("source")!r}, {res.attrs.get("dest")!r})')
+        if not problems:
+            out.ok('RC-7', cons, ctx.p.loc(unit, unit.node), f'{len(worlds)} graphs: exactly the nodes on dependency paths, induced edges, end points recorded')
         else:
-            out.bad('RC-7', cons, ctx.p.loc(unit, sub),
-                    f'the sub-dag is not exactly the nodes on dependency paths from {src_} to {dst_} ({verdict[1]}): side inputs outside the '
-                    f'recurrent subgraph are pulled in, re-armed and re-executed on every iteration (or needed nodes are left out)',
-                    props={'C04', 'C11', 'C03'})
+            out.bad('RC-7', cons, ctx.p.loc(unit, unit.node),
+                    f'the sub-dag is not exactly the nodes on dependency paths from {src_} to {dst_} ({"; ".join(sorted(set(problems))[:3])}): side '
+                    f'inputs outside the recurrent subgraph are pulled in, re-armed and re-executed on every iteration (or needed nodes are '
+                    f'left out)', props={'C04', 'C11', 'C03'})
 
 
 def _follow_values(ctx: Ctx, expr: ast.AST, inst, depth: int = 0):
